@@ -107,7 +107,7 @@ func genC18(r *eng.Rng, th bool) *c18Case {
 		}
 	}
 	na := 1 + r.Intn(4)
-	acts := []string{"reads", "batch", "notify", "stats", "reads"}
+	acts := []string{"reads", "batch", "notify", "stats", "reads", "persist-force", "persist-idle", "persist-plain"}
 	for i := 0; i < na; i++ {
 		c.Actions = append(c.Actions, acts[r.Intn(len(acts))])
 	}
@@ -312,6 +312,36 @@ func runC18(cs *c18Case, scratch string, idx int, sr *run.ShardResult) (class, d
 		case "stats":
 			coll.Stats()
 			store.Stats()
+		case "persist-force", "persist-idle", "persist-plain":
+			// Store.Persist is public API; on a ReadOnly store it must not
+			// write either, whatever the compaction concern.
+			var higher moss.Snapshot
+			po := moss.StorePersistOptions{CompactionConcern: moss.CompactionForce}
+			switch a {
+			case "persist-idle":
+				po.CompactionConcern = moss.CompactionAllow
+			case "persist-plain":
+				po.CompactionConcern = moss.CompactionDisable
+			}
+			if a != "persist-idle" {
+				higher, _ = coll.Snapshot()
+			}
+			var ps moss.Snapshot
+			perr := eng.Safe(func() error { var err error; ps, err = store.Persist(higher, po); return err })
+			if ps != nil {
+				ps.Close()
+			}
+			if higher != nil {
+				higher.Close()
+			}
+			if perr != nil && eng.IsFault(perr) {
+				closeAll()
+				return "readonly-persist-panic", disc, perr.Error()
+			}
+			if c, d := check(live, a); c != "" {
+				closeAll()
+				return c, disc, d
+			}
 		}
 	}
 	if err := eng.Safe(func() error { return coll.Close() }); err != nil {
